@@ -281,13 +281,14 @@ func regMonad(mo monad) {
 		case "Ap":
 			return fmt.Sprintf(".Ap(%s)", a), true
 		case "ApFunc":
-			return fmt.Sprintf(".ApFunc(func() int { return %s })", a), true
+			// stateful supplier: a the first time it runs, something else afterwards
+			return fmt.Sprintf(".ApFunc(nth(%s))", a), true
 		}
 		if w, ok := mo.apWrapped[variant]; ok {
 			return fmt.Sprintf(".%s(%s(%s))", variant, w, a), true
 		}
 		if w, ok := mo.apThunk[variant]; ok {
-			return fmt.Sprintf(".%s(func() %s[int] { return %s(%s) })", variant, w[0], w[1], a), true
+			return fmt.Sprintf(".%s(thunkOf(nth(%s), %s[int]))", variant, a, w[1]), true
 		}
 		// chain callbacks: Map/FlatMap see the previously applied value (hlist.Nil at the first step),
 		// HListMap/HListFlatMap see all previously applied values, most recent first.
@@ -359,6 +360,21 @@ func regMonad(mo monad) {
 				}
 				b.WriteString(mo.clause(m, v, stmts, res, want))
 				n++
+				_, isThunk := mo.apThunk[v]
+				if typeFam == "MonadChain" && k >= 2 && (isThunk || v == "ApFunc") {
+					// the lazy variant at every position but the last, HListMap at the last: the values the chain
+					// recorded are the values the function receives (each supplier contributes one value)
+					var ch strings.Builder
+					fmt.Fprintf(&ch, "%s.%s(f)", p, m.Name)
+					for i := 1; i < k; i++ {
+						st, _ := step(v, i, k, false)
+						ch.WriteString(st)
+					}
+					st, _ := step("HListMap", k, k, false)
+					ch.WriteString(st)
+					b.WriteString(mo.clause(m, v+"/then-HListMap", "var seen []int; r := "+ch.String(),
+						mo.conv+"(r, func(x []int) []int { return cat(x, seen) })", fmt.Sprintf("cat(v, rev(v[:%d]))", k-1)))
+				}
 				if v == "Ap" && k >= 2 {
 					// the same chain with every intermediate builder also applied to two other values
 					// (before and after) whose results are dropped: builders are values
